@@ -4,12 +4,39 @@
    evaluation is structural; [stmt] ties the knot. *)
 From Coq Require Import Floats.
 From GenqlV Require Import Base.Prelude Base.Value.
+(* the selector language of C09 (abstract syntax and its concrete text); not imported: its names
+   (Key, Index, Path, join, ...) stay qualified *)
+From GenqlV Require Spec.SelectorSpec.
+
+(* the identifier a query gets from a table name without alias: strings.SplitN(tableName, ".", 2)[0] *)
+Fixpoint before_dot (s : string) : string :=
+  match s with
+  | EmptyString => EmptyString
+  | String c r => if Ascii.eqb c "."%char then EmptyString else String c (before_dot r)
+  end.
+Definition sel_ident (a : SelectorSpec.sel) : string := before_dot (SelectorSpec.print_sel a).
 
 Inductive cmpop := OpEq | OpNe | OpLt | OpLe | OpGt | OpGe.
 Inductive binop := BAdd | BSub | BMul | BDiv | BIntDiv | BMod | BAnd | BOr | BXor | BShl | BShr.
 Inductive unop := UNeg | UTilde | UBang.
 Inductive isop := IsNull | IsNotNull | IsTrue | IsNotTrue | IsFalse | IsNotFalse.
 Inductive aggfn := ACount | ASum | AMin | AMax | AAvg.
+
+(* one step of a GROUP BY key: the grouping column is a SELECTOR (plsql.go ExecGroupBy reads it with
+   ExecReader(row, keyText)), of which the model keeps key steps `a.b` and single index steps `[i]`
+   ([KIdx (-1)] is `[each]`) *)
+Inductive kstep :=
+| KKey (k : string)
+| KIdx (i : Z).
+
+(* a grouping column: the text BuildGroup registers (the column's name, or qualifier.name) — it is the key
+   under which the group row carries the value — and the selector steps that text parses to *)
+Definition gkey := (string * list kstep)%type.
+Definition gk_name (c : gkey) : string := fst c.
+Definition gk_path (c : gkey) : list kstep := snd c.
+
+(* a flat grouping column  GROUP BY c *)
+Definition gcol (c : string) : gkey := (c, [KKey c]).
 
 Section Expr.
   Variable Q : Type.
@@ -49,6 +76,8 @@ Section Expr.
   | FDual
   | FTable (path : list string) (alias : string)     (* alias "" = none *)
   | FTableFn (fn : string) (path : list string) (alias : string)   (* `fn=>path`: top-level selector function *)
+  | FSel (a : SelectorSpec.sel) (alias : string)     (* a table name that is a SELECTOR (brackets, keep=>, each,
+                                                        ranges, pipes, `::`, fn=>): the text is print_sel a *)
   | FDerived (q : Q) (alias : string)
   | FJoin (jt : jointype) (st : jstrategy) (l r : from_clause) (on : expr).
 
@@ -56,7 +85,7 @@ Section Expr.
     s_with : list (string * Q);
     s_from : from_clause;
     s_where : option expr;
-    s_group : list string;               (* unqualified grouping columns *)
+    s_group : list gkey;                 (* grouping columns: flat names, key paths, indexed selectors *)
     s_having : option expr;
     s_items : list sel_item;
     s_distinct : bool;
@@ -72,7 +101,7 @@ Arguments EIn {Q}. Arguments EInSub {Q}. Arguments EBetween {Q}. Arguments EIs {
 Arguments EUn {Q}. Arguments ECase {Q}. Arguments ESub {Q}. Arguments EExists {Q}. Arguments EAgg {Q}.
 Arguments ECall {Q}. Arguments ETuple {Q}.
 Arguments IStar {Q}. Arguments IExpr {Q}.
-Arguments FDual {Q}. Arguments FTable {Q}. Arguments FTableFn {Q}. Arguments FDerived {Q}. Arguments FJoin {Q}.
+Arguments FDual {Q}. Arguments FTable {Q}. Arguments FTableFn {Q}. Arguments FSel {Q}. Arguments FDerived {Q}. Arguments FJoin {Q}.
 Arguments Build_select {Q}.
 Arguments s_with {Q}. Arguments s_from {Q}. Arguments s_where {Q}. Arguments s_group {Q}.
 Arguments s_having {Q}. Arguments s_items {Q}. Arguments s_distinct {Q}. Arguments s_order {Q}.
